@@ -219,13 +219,23 @@ def rdbExpanded (src tgt : Bytes) (raw : List Cmd) (delPrefix : Bool) (ttl : Opt
 def rdbRestore (tgt ttl dump : Bytes) (opts : List Bytes) : List Cmd := [⟨rRestore, tgt :: ttl :: dump :: opts⟩]
 
 def rREPLACE : Bytes := [82,69,80,76,65,67,69]
+def rIDLETIME : Bytes := [73,68,76,69,84,73,77,69]
+def rFREQ : Bytes := [70,82,69,81]
+
+/-- the option words of `captureBisyncRdbRestoreCommand`: `IDLETIME n` / `FREQ n`
+    when the target is Redis ≥ 5 and the entry carries them, then `REPLACE`
+    iff keyExists = replace -/
+def restoreOpts (v5 : Bool) (idle freq : Nat) (replaceExisting : Bool) : List Bytes :=
+  (if v5 && idle != 0 then [rIDLETIME, natToDec idle] else []) ++
+  (if v5 && freq != 0 then [rFREQ, natToDec freq] else []) ++
+  (if replaceExisting then [rREPLACE] else [])
 
 /-- the command list of `buildBisyncRdbReplayUnit` for a keyed entry: RESTORE
-    when `bisyncRdbUseRestore` says so (REPLACE iff keyExists = replace), the
-    expanded form otherwise (DEL prefix iff first bin and keyExists = replace) -/
+    when `bisyncRdbUseRestore` says so, the expanded form otherwise (DEL prefix
+    iff first bin and keyExists = replace) -/
 def rdbCommands (useRestore firstBin replaceExisting : Bool) (src tgt : Bytes) (raw : List Cmd)
-    (ttl : Option Bytes) (ttlArg dump : Bytes) : List Cmd :=
-  if useRestore then rdbRestore tgt ttlArg dump (if replaceExisting then [rREPLACE] else [])
+    (ttl : Option Bytes) (ttlArg dump : Bytes) (v5 : Bool := false) (idle freq : Nat := 0) : List Cmd :=
+  if useRestore then rdbRestore tgt ttlArg dump (restoreOpts v5 idle freq replaceExisting)
   else rdbExpanded src tgt raw (firstBin && replaceExisting) ttl
 
 /-! ### the transaction a unit is committed with (dispatchBisyncUnit /
